@@ -262,6 +262,10 @@ func c06Body(faulty bool) func(rc *RunCtx) {
 				case 11:
 					if simrt.Chance(1, 6) {
 						it.size = 2*1024*1024 + 100 + simrt.Choose(5000) // larger than the client's write buffer
+					} else if simrt.Chance(1, 5) {
+						// the frame length lands within a few bytes of the client's 2 MiB write buffer
+						// (frame = 22-byte header + pack type + pack header + text field + padding)
+						it.size = 2*1024*1024 - 80 + simrt.Choose(100)
 					} else {
 						it.size = 70000
 					}
